@@ -197,3 +197,14 @@ def walk_jobs(headers, depth, seed, cap, menu, split_at=2, pre=()):
             rec(hist + [row], d - 1)
     rec([], depth)
     return shorter, jobs
+
+
+def hist_from_json(hist):
+    """histories recorded in replay files: global-comment rows come back as ['g', text] lists"""
+    out = []
+    for r in hist:
+        if len(r) == 2 and r[0] == 'g' and isinstance(r[1], str):
+            out.append(('g', r[1]))
+        else:
+            out.append([dict(s) for s in r])
+    return out
